@@ -574,6 +574,31 @@ def check_C01(tier):
             chk.notes.append("twin-input workflow failed rc=%s: %s" % (obs["rc"], obs["stderr"][-120:]))
         else:
             chk.nontrivial.add("twin-inputs")
+    # (d) two PROCESSES whose names differ only in letter case / punctuation read the same file at the same time, one fast, one slow
+    # (both tasks are created while a 2-core blocker holds both slots, so both pass the leftover check before either creates its temp dir)
+    tw2 = dict(name="TW2", max=2, bufsize=2,
+               procs=[zoo.src("s", ["1"]), zoo.src("h", ["hold"]), zoo.cmd("hold", ["in"], ["out"], cores=2),
+                      dict(name="Conv", kind="cmd", ins=["in"], outs=["out"], outpaths={"out": "o/fast.res.txt"}),
+                      dict(name="conv", kind="cmd", ins=["in"], outs=["out"], outpaths={"out": "o/slow.res.txt"})],
+               edges=[zoo.E("h.out", "hold.in"), zoo.E("s.out", "Conv.in"), zoo.E("s.out", "conv.in")],
+               ctl={"hold.sleep": "0.5", "Conv.sleep": "0.1", "conv.sleep": "0.9"})
+    def tw2_run(k):
+        d = scratch("tw2")
+        try:
+            prepare_dir(tw2, d)
+            return fs.run_real_watch(tw2, d, [os.path.join(d, "o/fast.res.txt"), os.path.join(d, "o/slow.res.txt")], env={"VERIF_JITTER": str(k)} if k else {}, timeout=30)
+        finally:
+            rmtree(d)
+    for obs in pmap(tw2_run, range(4 if thorough else 2), workers=2):
+        chk.evaluations += 1
+        bad = [(w, o) for w, o in list(obs["first_sight"].items()) + list(obs["at_exit"].items()) if not o["complete"]]
+        if bad:
+            chk.violation("two processes named Conv / conv reading the same file concurrently: incomplete file at final path %s (%d bytes)" % (os.path.basename(bad[0][0]), bad[0][1]["size"]),
+                          dict(instance=tw2, observation=obs))
+        elif obs["rc"] != 0:
+            chk.notes.append("Conv/conv workflow failed rc=%s: %s" % (obs["rc"], obs["stderr"][-120:]))
+        else:
+            chk.nontrivial.add("case-twin processes")
     # Go-function task written the documented way (task.OutIP(port).Write(data), examples/custom_execution_function)
     inst = dict(name="FW", max=1, bufsize=2, procs=[zoo.src("s", ["1"]), zoo.cmd("a", ["in"], ["out"], kind="gofunc_ipwrite")], edges=[zoo.E("s.out", "a.in")])
     rr = fc.real_runs(inst, [dict(env={}, bufsize=2, timeout=20)])[0]
@@ -779,7 +804,7 @@ def check_C02(tier):
             b, a = second.before.get(p), second.snapshot.get(p)
             if b and (a is None or b["sha"] != a["sha"] or b["ino"] != a["ino"] or b["mtime_ns"] != a["mtime_ns"]):
                 R.report("C02", "existing output %s was modified/replaced by the re-run (history %s)" % (p, h.label), h)
-    for inst in [FA(), FB()] + ([FD(), zoo.Z3(n=2)] if thorough else []):
+    for inst in [FA(), FB(), FE("abs"), FE("parent")] + ([FD(), zoo.Z3(n=2)] if thorough else []):
         hs = [fs.History(inst, [("run", None), ("run", None)], label="complete run, run again")]
         exp = fc.expected(inst)
         for l, v in fs.crash_points(inst, exp):
